@@ -389,6 +389,21 @@ fn at_end(sc: &Sc, main_finished: bool, default_schedule: bool) {
 	let sigs: Vec<(usize, u64, usize, i32)> =
 		f.log.iter().enumerate().filter_map(|(i, r)| if let Ev::Sig { id, sig, ok: true } = &r.ev { Some((i, r.t, *id, *sig)) } else { None }).collect();
 	let kills: Vec<(usize, u64, usize)> = f.log.iter().enumerate().filter_map(|(i, r)| if let Ev::Kill { id, ok: true } = &r.ev { Some((i, r.t, *id)) } else { None }).collect();
+	// every mode: a run ends by itself or through the documented stop sequence (signal, then
+	// kill + wait) — its handle is never simply dropped while it runs (which would SIGKILL
+	// it without collecting the status, e.g. a start that replaces a running process)
+	for (i, r) in f.log.iter().enumerate() {
+		if let Ev::Drop { id } = &r.ev {
+			let ended = f.log[..i].iter().any(|x| match &x.ev {
+				Ev::Exit { id: c, cause } => c == id && *cause != "drop",
+				Ev::Reap { id: c, .. } => c == id,
+				_ => false,
+			});
+			if !ended {
+				push(format!("C05/{:?}/running-command-was-dropped", sc.mode), format!("drop#{id} at log {i}: the run was neither over nor stopped"));
+			}
+		}
+	}
 	match sc.mode {
 		Mode::DoNothing | Mode::Queue => {
 			// P3 / P6: the running command is never touched
